@@ -8,9 +8,9 @@ import CaddyModel.C07.Lemmas
 namespace CaddyModel.C07
 
 /-- what has to be true of the filesystem and the configuration for an outcome to be produced -/
-def Justified (fs : FS) (c : Cfg) : Outcome → Prop
+def Justified (fs : FS) (c : Cfg) (path : Bytes) : Outcome → Prop
   | .file p id => UnderS c.rootC p ∧ c.hidden p = false ∧ fs p = .file id
-  | .listing p ns => UnderS c.rootC p ∧ c.hidden p = false ∧ ∃ es, fs p = .dir es ∧ ns = listingNames c es
+  | .listing p ns => UnderS c.rootC p ∧ c.hidden p = false ∧ ∃ es, fs p = .dir es ∧ ns = listingNames c path es
   | .redirect => True
   | .notFound => c.passThru = false
   | .passThru => c.passThru = true
@@ -18,7 +18,7 @@ def Justified (fs : FS) (c : Cfg) : Outcome → Prop
   | .serverError => ∃ n, fs n = .other
   | .unavailable => False
 
-theorem notFoundOut_justified (fs : FS) (c : Cfg) : Justified fs c (notFoundOut c) := by
+theorem notFoundOut_justified (fs : FS) (c : Cfg) (path : Bytes) : Justified fs c path (notFoundOut c) := by
   unfold notFoundOut
   cases h : c.passThru <;> simp [Justified, h]
 
@@ -27,10 +27,10 @@ theorem openAndServe_of_file {fs : FS} {c : Cfg} {f : Bytes} {id : Nat} (h : fs 
   simp [openAndServe, h]
 
 theorem serveFile_justified {fs : FS} {c : Cfg} {f : Bytes} {id : Nat} (imp : Bool) (path orig : Bytes)
-    (h : fs f = .file id) (hu : UnderS c.rootC f) : Justified fs c (serveFile fs c f imp path orig).1 := by
+    (h : fs f = .file id) (hu : UnderS c.rootC f) : Justified fs c path (serveFile fs c f imp path orig).1 := by
   unfold serveFile
   split
-  · exact notFoundOut_justified fs c
+  · exact notFoundOut_justified fs c path
   split
   · trivial
   split
@@ -41,7 +41,7 @@ theorem serveFile_justified {fs : FS} {c : Cfg} {f : Bytes} {id : Nat} (imp : Bo
 
 theorem serveBrowse_justified {fs : FS} {c : Cfg} {f : Bytes} {es : List Entry} (path orig : Bytes)
     (h : fs f = .dir es) (hu : UnderS c.rootC f) (hh : c.hidden f = false) :
-    Justified fs c (serveBrowse c f es path orig).1 := by
+    Justified fs c path (serveBrowse c f es path orig).1 := by
   unfold serveBrowse
   split
   · trivial
@@ -49,7 +49,7 @@ theorem serveBrowse_justified {fs : FS} {c : Cfg} {f : Bytes} {es : List Entry} 
 
 theorem serveNode_justified {fs : FS} {c : Cfg} {f : Bytes} {info : Node} (imp : Bool) (path orig : Bytes)
     (h : fs f = info) (hk : (∃ id, info = .file id) ∨ (∃ es, info = .dir es)) (hu : UnderS c.rootC f) :
-    Justified fs c (serveNode fs c f info imp path orig).1 := by
+    Justified fs c path (serveNode fs c f info imp path orig).1 := by
   rcases hk with ⟨id, rfl⟩ | ⟨es, rfl⟩
   · simp only [serveNode]
     exact serveFile_justified imp path orig h hu
@@ -58,7 +58,7 @@ theorem serveNode_justified {fs : FS} {c : Cfg} {f : Bytes} {info : Node} (imp :
     · rename_i hb
       simp at hb
       exact serveBrowse_justified path orig h hu hb.2
-    · exact notFoundOut_justified fs c
+    · exact notFoundOut_justified fs c path
 
 theorem findIndex_spec (fs : FS) (c : Cfg) (f : Bytes) : ∀ (ixs : List Bytes) (ip : Bytes) (inode : Node),
     (findIndex fs c f ixs).1 = some (ip, inode) →
@@ -90,7 +90,7 @@ theorem withTrace_fst {α : Type} (p : Bytes) (r : Traced α) : (withTrace p r).
 
 theorem serveStatOk_justified {fs : FS} {c : Cfg} {f : Bytes} {info : Node} (path orig : Bytes)
     (h : fs f = info) (hk : (∃ id, info = .file id) ∨ (∃ es, info = .dir es)) (hu : Under c.rootC f) :
-    Justified fs c (serveStatOk fs c f info path orig).1 := by
+    Justified fs c path (serveStatOk fs c f info path orig).1 := by
   unfold serveStatOk
   split
   · split
@@ -125,13 +125,13 @@ theorem mapDirOpenError_result (fs : FS) (orig : Node) (name : Bytes) :
 
 /-- the whole handler: every outcome is justified -/
 theorem serve_justified (fs : FS) (c : Cfg) (path orig : Bytes) (hfs : fs [] = .missing) :
-    Justified fs c (serve fs c path orig).1 := by
+    Justified fs c path (serve fs c path orig).1 := by
   unfold serve
   rw [withTrace_fst]
   rcases requestFile_cases c path with hnil | hu
   · rw [hnil, hfs]
     simp [mapDirOpenError]
-    exact notFoundOut_justified fs c
+    exact notFoundOut_justified fs c path
   · split
     · rename_i id hf
       exact serveStatOk_justified path orig hf (Or.inl ⟨id, rfl⟩) hu
@@ -140,8 +140,8 @@ theorem serve_justified (fs : FS) (c : Cfg) (path orig : Bytes) (hfs : fs [] = .
     · rename_i e hnf hnd
       have hres := mapDirOpenError_result fs (fs (requestFile c path)) (requestFile c path)
       split
-      · exact notFoundOut_justified fs c
-      · exact notFoundOut_justified fs c
+      · exact notFoundOut_justified fs c path
+      · exact notFoundOut_justified fs c path
       · rename_i t hm
         have : (mapDirOpenError fs (fs (requestFile c path)) (requestFile c path)).1 = .perm := by rw [hm]
         rw [this] at hres
